@@ -727,7 +727,7 @@ func genShipped(c *Ctx, all []*shipped, rounds int) {
 					}
 					projectDicts(gc, s, md)
 					in := gc.sx()
-					c.Emit(in, runGroups(in, s.transport, s.app))
+					c.Pending(in); c.Emit(in, runGroups(in, s.transport, s.app))
 				}
 			}
 		}
@@ -972,7 +972,7 @@ func genGenerated(c *Ctx, n int) {
 			gc.body[k], gc.body[j] = gc.body[j], gc.body[k]
 		}
 		in := gc.sx()
-		c.Emit(in, runGroups(in, nil, nil))
+		c.Pending(in); c.Emit(in, runGroups(in, nil, nil))
 	}
 }
 
